@@ -94,7 +94,9 @@ func (a lset) concrete() []tAtom {
 			out = append(out, k)
 		}
 	}
-	sort.Slice(out, func(i, j int) bool { return out[i].Origin+fmt.Sprint(out[i].Idx) < out[j].Origin+fmt.Sprint(out[j].Idx) })
+	sort.Slice(out, func(i, j int) bool {
+		return out[i].Origin+fmt.Sprint(out[i].Idx) < out[j].Origin+fmt.Sprint(out[j].Idx)
+	})
 	return out
 }
 
@@ -615,8 +617,8 @@ func (e *taintEngine) analyse(fn *ssa.Function) {
 		req := fn.Params[1]
 		c.marked[req] = lset{
 			tAtom{Kind: 'C', Idx: int(lPassword), Origin: origin(fn, "request seen by a custom RoundTripper")}: 0,
-			tAtom{Kind: 'C', Idx: int(lAPIKey), Origin: origin(fn, "request seen by a custom RoundTripper")}: 0,
-			tAtom{Kind: 'C', Idx: int(lToken), Origin: origin(fn, "request seen by a custom RoundTripper")}: 0,
+			tAtom{Kind: 'C', Idx: int(lAPIKey), Origin: origin(fn, "request seen by a custom RoundTripper")}:   0,
+			tAtom{Kind: 'C', Idx: int(lToken), Origin: origin(fn, "request seen by a custom RoundTripper")}:    0,
 		}
 	}
 	// container taints (two rounds to let them feed each other)
